@@ -19,6 +19,7 @@ class LoopAnn:
     def __init__(self, name, invariant, variant=None, keep=(), after_break=None, elem=None, entry=None):
         self.name, self.invariant, self.variant, self.keep, self.after_break = name, invariant, variant, keep, after_break
         self.havoc = None                # havoc(view): extra python-level havoc of state the static analysis cannot type (set after construction)
+        self.exit_any = False            # True (while loops): the code after the loop is examined from the havoc'd state with the test left open; break states must satisfy the invariant
         self.entry = entry               # entry(view) -> dict of ghost values captured at loop entry, visible as view.<name>
         self.elem = dict(elem or {})     # element type of lists that are empty at loop entry: {'bits': 'bool'}
 
